@@ -74,6 +74,25 @@ CASES = [
      ("expect", ["(ext_local_get_version : L → String → (Rs.M (Option Nat)))", "let v ← ext_local_get_version self.«local» k"]), ("C", "f"),
      {"local.get_version": {"params": ["&str"], "ret": "Result<Option<u64>, Error>"}}),
     ("litfold", "fn f(x: u64) -> u64 { x << 8 * 7 }", ("expect", ["Rs.ushl 64 x 56"])),
+    # ---- round 9 (b1819): atomics, byte-string literals, literal-bound &str, let-bound try_into, receiver-updating externals
+    ("atomic", "pub struct C { pub n: AtomicU32, pub k: AtomicUsize }\nimpl C { fn f(&self) -> u32 { self.n.fetch_add(1, Ordering::AcqRel) } }",
+     ("expect", ["def C.f (self : C) : C × Nat", "let old_1 := self.n", "{ self with n := (Rs.uwrapAdd Rs.U32_MAX old_1 1) }", "(self, old_1)"]), ("C", "f")),
+    ("atomic2", "pub struct C { pub k: AtomicUsize }\nimpl C { fn g(&self, v: usize) -> usize { self.k.store(v, Ordering::SeqCst); self.k.load(Ordering::Relaxed) } }",
+     ("expect", ["{ self with k := v }", "(self, self.k)"]), ("C", "g")),
+    ("bstr", "fn f(v: &mut Vec<u8>) { v.extend_from_slice(b\"ab\"); }", ("expect", ["(v ++ [97, 98])"])),
+    ("strlet", "fn f() -> Vec<u8> { let info = \"ab\"; info.as_bytes().to_vec() }", ("expect", ["[97, 98]"])),
+    ("r-strlet-rebound", "fn f(c: bool) -> Vec<u8> { let info = \"ab\"; let info = if c { \"cd\" } else { info }; info.as_bytes().to_vec() }",
+     ("refuse", "not a literal")),
+    ("r-strlet-assigned", "fn f(c: bool) -> Vec<u8> { let mut info = \"ab\"; if c { info = \"cd\"; } info.as_bytes().to_vec() }",
+     ("refuse", "not a literal")),
+    ("tryinto-let", "fn f(b: &[u8]) -> (u8, [u8; 4]) { let a = b[1..5].try_into().unwrap(); (b[0], a) }",
+     ("expect", ["Rs.slice b 1 5", "Rs.arrayOfSlice 4"])),
+    ("tryinto-ann", "fn f(b: &[u8]) -> u8 { let a: [u8; 2] = b[0..2].try_into().unwrap(); a[1] }", ("expect", ["Rs.arrayOfSlice 2"])),
+    ("r-tryinto-untyped", "fn f(b: &[u8]) -> u8 { let a = b[0..2].try_into().unwrap(); g(a) }", ("refuse", "without a known array type")),
+    ("updrecv", "fn f(e: Eng, x: &[u8]) -> Eng { let mut h = e; h.input(x); h.input(b\"s\"); h }",
+     ("expect", ["(ext_Eng_input : Eng → (List Nat) → Eng)", "let h := (ext_Eng_input h x)", "let h := (ext_Eng_input h [115])"]), (None, "f"),
+     {"Eng.input": {"params": ["Eng", "&[u8]"], "ret": "Eng", "updates_receiver": True}}),
+    ("r-updrecv-undeclared", "fn f(e: Eng, x: &[u8]) -> Eng { let mut h = e; h.input(x); h }", ("refuse", "input")),
     ("entry2", "pub struct H { pub p: K2, pub v: u64 }\nfn f(hs: &[H]) -> BTreeMap<K2, u64> { let mut m = BTreeMap::new(); for h in hs { m.entry(h.p).and_modify(|e| *e += h.v).or_insert(h.v); } m }",
      ("expect", ["match (Rs.omapGet m h.p) with", "| some e =>", "Rs.uadd Rs.U64_MAX e h.v", "Rs.omapInsert m h.p e", "Rs.omapInsert m h.p h.v"])),
     ("entryloop", "fn f(a: BTreeMap<K2, u64>, b: BTreeMap<K2, u64>) -> BTreeMap<K2, u64> { let mut m = a; for (k, v) in b { m.entry(k).and_modify(|e| *e = max(*e, v)).or_insert(v); } m }",
